@@ -78,7 +78,7 @@ def main(tier):
                 w["text"] = 'def e { return "a" weighted 1 } ' + w["text"]
             witnesses.append(w)
     from vf.props import glue
-    gfind, ok_paths, urun = glue.analyse()
+    gfind, ok_paths, genc, gnotes = glue.analyse_all()
     for code, desc in gfind:
         if code == "unterminated-accepted":
             witnesses.append({"kind": "rejects", "text": 'def e { return "a" weighted 1 } /* never closed', "why": desc})
@@ -195,11 +195,12 @@ def main(tier):
         "common_sentence_twin": " ".join(twin) if twin else None,
         "parse_absorb_paths": absorb_res,
         "parse_source_glue_paths_ok": ok_paths,
+        "tokenizer_driver_obligations": ["master pattern applied to tokenize()'s own text", "each match starts where the previous one ended", "emitted token carries the matched text and rule name", "ignored rules emit nothing", "no match => error() gets the rest of the text"],
         "parse_source_glue_obligations": ["text handed to the lexer unchanged", "token stream handed to the parser unchanged", "LexError / YaccError propagate", "parser result returned unchanged", "lexer ending inside a block comment raises", "a lexer outliving the call is back in its initial state on every exit"],
         "lalr_conflicts": {"sr": len(lt.sr_conflicts), "rr": len(lt.rr_conflicts)},
         "near_misses_rejected_by_the_real_pipeline": n_valid - len(absorbed),
         "queries": tally.as_dict(),
-        "functions_encoded": dict(absorb_enc, **urun.encoded_digest(), **init["encoded"]),
+        "functions_encoded": dict(absorb_enc, **genc, **init["encoded"]),
         "bounds": "lexical lemmas: texts of any length, one step from any position, in both lexer states; syntactic "
                   "inclusion: token sequences of length <= %d; between the two, sly's LALR table construction and shift/reduce "
                   "driver are trusted (validated on %d solver-generated near-misses)" % (K, n_valid),
